@@ -4,8 +4,9 @@ From VQ Require Import Model.Inventory.
 From VQ.Gen Require Import inv_lfq.
 Import ListNotations.
 Open Scope string_scope.
-Lemma pin_inv_lfq : inv_lfq =
+Definition pinned_inv_lfq : list (string * kind * bool) :=
   [("codebook", Buffer, false);
    ("mask", Buffer, true);
    ("zero", Buffer, false)].
+Lemma pin_inv_lfq : inv_lfq = pinned_inv_lfq.
 Proof. reflexivity. Qed.
